@@ -150,4 +150,32 @@ Theorem product_amplitude c dwl dal uW uA sigma k : 0 < dal -> bonds_ok c -> len
   propP dwl dal (kronv dal uW uA) c sigma k
   = sumconf (length c) (fun sp => kronv (lastda dal c) (transW dwl uW c sigma sp) (transA dal uA c sp) k).
 Proof. intros Hd Hb Hl. rewrite product_represents_application by assumption. apply applied_is_sum. exact Hl. Qed.
+
+(* ---- MPO . MPO: the same statement with the second physical index of the right factor carried along ----
+   a site of the pair: W1 s t (dw1l x dw1), W2 t s' (dw2l x dw2); for a fixed lower configuration sigma' the right factor is a state *)
+Record osite2 := { dw1 : nat; dw2 : nat; W1m : nat -> nat -> nat -> nat -> R; W2m : nat -> nat -> nat -> nat -> R }.
+Definition as_psite (s : osite2) (sp : nat) : psite := {| dw := dw1 s; da := dw2 s; Wm := W1m s; Am := fun t => W2m s t sp |}.
+Fixpoint zip_sites (c : list osite2) (sigma' : list nat) : list psite :=
+  match c, sigma' with s :: c', i :: sg => as_psite s i :: zip_sites c' sg | _, _ => [] end.
+(* site tensor of the product operator at (sigma, sigma'): Kronecker product of the bonds, the middle index summed *)
+Definition prodop (dal : nat) (s : osite2) (sg sp : nat) : nat -> nat -> R :=
+  fun k l => rsum d (fun t => kronm dal (dw2 s) (W1m s sg t) (W2m s t sp) k l).
+Lemma prodop_is_prodmat dal s sg sp k l : prodop dal s sg sp k l = prodmat dal (as_psite s sp) sg k l.
+Proof. reflexivity. Qed.
+Lemma zip_sites_length c : forall sg, length sg = length c -> length (zip_sites c sg) = length c.
+Proof. induction c as [|s c IH]; intros [|i sg] H; try discriminate; [reflexivity|]. cbn [zip_sites length]. rewrite IH by (cbn [length] in H; lia). reflexivity. Qed.
+Lemma zip_sites_bonds c : forall sg, length sg = length c -> (forall s, In s c -> 0 < dw2 s) -> bonds_ok (zip_sites c sg).
+Proof.
+  induction c as [|s c IH]; intros [|i sg] H Hb; try discriminate; [exact I|].
+  cbn [zip_sites bonds_ok as_psite da]. split; [apply Hb; left; reflexivity|]. apply IH; [cbn [length] in H; lia|]. intros s' Hs'. apply Hb. right. exact Hs'.
+Qed.
+
+Theorem mpo_product_amplitude (c : list osite2) dwl dal u1 u2 sigma sigma' k :
+  0 < dal -> (forall s, In s c -> 0 < dw2 s) -> length sigma = length c -> length sigma' = length c ->
+  propP dwl dal (kronv dal u1 u2) (zip_sites c sigma') sigma k
+  = sumconf (length c) (fun tau => kronv (lastda dal (zip_sites c sigma')) (transW dwl u1 (zip_sites c sigma') sigma tau) (transA dal u2 (zip_sites c sigma') tau) k).
+Proof.
+  intros Hd Hb Hs Hs'. pose proof (zip_sites_length c sigma' Hs') as E. rewrite <- E.
+  apply product_amplitude; [exact Hd | apply zip_sites_bonds; assumption | rewrite zip_sites_length by exact Hs'; exact Hs].
+Qed.
 End OverRing.
